@@ -63,6 +63,26 @@ func main() {
 		for _, k := range sortedKeys(stats) {
 			fmt.Fprintf(os.Stderr, "%s=%d\n", k, stats[k])
 		}
+	case "arith", "taintops", "filters", "resources", "awsops", "fleetops":
+		stats := map[string]int{}
+		r := newRng(*seed)
+		switch stream {
+		case "arith":
+			runArith(r, *n, w, stats)
+		case "taintops":
+			runTaintOps(r, *n, w, stats)
+		case "filters":
+			runFilters(w, stats)
+		case "resources":
+			runResources(r, *n, w, stats)
+		case "awsops":
+			runAwsOps(r, *n, false, w, stats)
+		case "fleetops":
+			runAwsOps(r, *n, true, w, stats)
+		}
+		for _, k := range sortedKeys(stats) {
+			fmt.Fprintf(os.Stderr, "%s=%d\n", k, stats[k])
+		}
 	case "scenario":
 		stats := map[string]int{}
 		runScenarios(*dir, w, stats)
